@@ -13,6 +13,7 @@ cases, oracle self-test failure) - never reported as a violation.
 """
 import array
 import glob
+import copy
 import json
 import os
 import re
@@ -545,6 +546,52 @@ def write_evidence(pid, prop, tier, seed, merged, wall, nviol, extra):
     os.replace(tmp, p)
 
 
+KNOWN_TAGS = set("""aix android darwin dragonfly freebsd hurd illumos ios js linux nacl netbsd openbsd plan9 solaris wasip1 windows zos unix
+386 amd64 amd64p32 arm armbe arm64 arm64be loong64 mips mipsle mips64 mips64le mips64p32 mips64p32le ppc ppc64 ppc64le riscv riscv64 s390 s390x sparc sparc64 wasm
+cgo race msan asan gc gccgo ignore purego notzdata appengine netgo osusergo tools integration""".split())
+
+
+def custom_build_tags():
+    """Build tags that the non-test Go files of the tree under check use in their build constraints and that no
+    leg switches on by itself (operating systems, architectures and the well-known tags aside).  A piece of code
+    behind such a tag is a configuration of the library like any other."""
+    tags = set()
+    for root, dirs, files in os.walk(REPO):
+        dirs[:] = [d for d in dirs if not d.startswith(".") and d not in ("testdata", "vendor")]
+        for f in files:
+            if not f.endswith(".go") or f.endswith("_test.go"):
+                continue
+            try:
+                head = open(os.path.join(root, f), errors="replace").read(4000)
+            except OSError:
+                continue
+            for line in head.splitlines():
+                line = line.strip()
+                if line.startswith("package "):
+                    break
+                if line.startswith("//go:build") or line.startswith("// +build"):
+                    for tok in re.findall(r"[A-Za-z_][A-Za-z0-9_.]*", line.split("build", 1)[1]):
+                        if tok not in KNOWN_TAGS and not re.match(r"go1\.\d+$", tok):
+                            tags.add(tok)
+    return sorted(tags)[:3]
+
+
+def custom_tag_legs(legs):
+    """For every custom build tag of the tree: the property's plain generated-input legs once more, built with it."""
+    out = []
+    for tag in custom_build_tags():
+        n = 0
+        for l in legs:
+            if l.rapid and not l.race and not l.instrument and not l.wrap and not l.goarch and not l.tags and not l.app and not l.fuzz and not l.env and n < 3:
+                c = copy.copy(l)
+                c.name, c.tags = "%s-tag-%s" % (l.name, tag), tag
+                c.checks = (max(1, l.checks[0] // 2), max(1, l.checks[1] // 8))
+                c.shards = (min(2, l.shards[0]), min(8, l.shards[1]))
+                out.append(c)
+                n += 1
+    return out
+
+
 def check_property(pid, tier, seed):
     prop = PROPS[pid]
     t0 = time.time()
@@ -557,6 +604,7 @@ def check_property(pid, tier, seed):
             # Regression replays first (committed shrunk cases).
             rdir = os.path.join(VERIF, "replays", pid)
             legs = [l for l in prop["legs"] if tier in l.tiers]
+            legs += custom_tag_legs(legs)
             for li, leg in enumerate(legs):
                 wkey = tuple(leg.instrument or ())
                 if wkey not in works:
